@@ -30,7 +30,9 @@ CHEAP = {
     "des": [b"ab", b"xy1234567890a", b"ab............", b"Zz" + b"q" * 30, b"a", b"a!",
             b"..", b"..abcdefghijk", b"./", b"/.", b"zz", b".." + b"." * 12],     # salt value 0 and the extremes
 }
-PHRASES = [b"short", b"a phrase longer than eight", b"12345678", b"123456789"]
+PHRASES = [b"short", b"a phrase longer than eight", b"12345678", b"123456789",
+           b"\xff\xff\xa3", b"\xff\xa334\xff\xff\xff\xa3345",          # crypt_blowfish's sign-extension collision pairs
+           b"x" * 64, b"block sized " * 10 + b"12345678"]                  # 64 and 128 bytes: hash-core block boundaries
 
 
 def corpus():
